@@ -11,7 +11,9 @@
  *   F | T                  freeze | thaw
  *   I k ox oy fmt w h seed insert key k with a w x h image (fmt 0 a1, 1 a8, 2 a8r8g8b8), pixels from seed
  *   L k | D k              lookup | remove
- *   U mode n k*n           draw the n glyphs (mode 0 composite_glyphs_no_mask, 1 composite_glyphs) and read back
+ *   U mode n k*n           draw the n glyphs and read back: mode 0 composite_glyphs_no_mask, 1 composite_glyphs,
+ *                          2 no_mask with every glyph positioned outside the destination, 3 no_mask with every
+ *                          glyph clipped away by the destination's clip region (UB: mode = position & 3)
  *   IQ ... | UQ ...        as I / U, but as a client would: lookup first; insert only on a miss, draw only on hits
  *   IB from n | LB from n | DB from n step | UB from n step       batched forms (long runs, counters only)
  *   G mode op dfmt dw dh dseed nclip {x1 y1 x2 y2}*nclip skind srep sw sh sseed
@@ -266,11 +268,26 @@ do_use (int mode, int n, const int *ks, uint32_t *pix /* n * CELL*CELL */, int *
 	pg[i].glyph = g;
 	pg[i].x = i * CELL + org[4 * i];
 	pg[i].y = org[4 * i + 1];
+	if (mode == 2)
+	{
+	    /* drawn, but entirely outside the destination (alternately left/above and right/below) */
+	    pg[i].x += (i & 1) ? 1000 : -1000;
+	    pg[i].y += (i & 1) ? 300 : -300;
+	}
     }
-    d = pixman_image_create_bits (PIXMAN_a8r8g8b8, n * CELL, CELL, NULL, -1);
+    /* one spare cell at the right end: in mode 3 the destination's clip region is that cell only, so the
+     * composite region is not empty but every glyph is clipped away */
+    d = pixman_image_create_bits (PIXMAN_a8r8g8b8, (n + 1) * CELL, CELL, NULL, -1);
     memset (pixman_image_get_data (d), 0, pixman_image_get_stride (d) * CELL);
+    if (mode == 3)
+    {
+	pixman_region32_t clip;
+	pixman_region32_init_rect (&clip, n * CELL, 0, CELL, CELL);
+	pixman_image_set_clip_region32 (d, &clip);
+	pixman_region32_fini (&clip);
+    }
     guard ();
-    if (mode == 0)
+    if (mode != 1)
 	pixman_composite_glyphs_no_mask (PIXMAN_OP_SRC, white, d, 0, 0, 0, 0, cache, n, pg);
     else
 	pixman_composite_glyphs (PIXMAN_OP_SRC, white, d, PIXMAN_a8r8g8b8, 0, 0, 0, 0, 0, 0, n * CELL, CELL, cache, n, pg);
@@ -759,7 +776,7 @@ main (int argc, char **argv)
 	    {
 		int k = from + i * step, org[4], missing = 0;
 		static uint32_t pix[CELL * CELL];
-		if (do_use (i & 1, 1, &k, pix, org, &missing))
+		if (do_use (i & 3, 1, &k, pix, org, &missing))
 		{
 		    bigpix[i] = pix[0];
 		    bigint[i] = (org[0] + 8) + 16 * (org[1] + 8);
